@@ -96,7 +96,7 @@ class Random(Component):
         return gen.ed_join_case(tier)
 
     def check(self, case, ctx):
-        L, R = canon.build_table(case["L"]), canon.build_table(case["R"])
+        L, R = canon.build_pair(case)
         tokcfg = case["tok"] or DEFAULT_TOK
         tok = mk_tok(case["tok"]) if case["tok"] else None
         df = calls.run_join(ctx, case, L, R, tok)
@@ -336,4 +336,15 @@ class Large(Component):
         ctx.label("large:n_jobs>1", case["n_jobs"] != 1)
 
 
-COMPONENTS = [Random(), E3(), Bundled(), Large()]
+class SelfJoin(Random):
+    """Every case passes the very same DataFrame object as left and right table."""
+    name = "selfjoin"
+
+    def examples(self, tier):
+        return 250 if tier == "quick" else 800
+
+    def strategy(self, tier):
+        return gen.ed_join_case(tier, self_join=True)
+
+
+COMPONENTS = [Random(), E3(), Bundled(), Large(), SelfJoin()]
